@@ -33,16 +33,19 @@ Record Fixes := mkFixes {
   fx_finally : bool;       (* the restoring decorators write back in a `finally` *)
   fx_profile : bool;       (* main puts the global profile's (enabled, _profile) back as found *)
   fx_timer : bool;         (* the RepeatedTimer is created once *)
-  fx_builtin : bool        (* main removes / restores builtins.profile *)
+  fx_builtin : bool;       (* main removes / restores builtins.profile *)
+  fx_autoprof : bool       (* the enable_by_count() of auto-profiling's registration statements
+                              (-l -p) is balanced before main ends *)
 }.
 
 (* ===> the behaviour of the current tree (edit here if kernprof.main changes again) <===
    repaired: lists looked up at call time + names put back (f436ae3), finally (d567ae1),
    decorator state handed back (2d3e878), one timer (204c2e5).
-   not changed: sys.argv is still rebound by main (harmless now); builtins.profile stays. *)
-Definition current : Fixes := mkFixes false true true true true false.
+   not changed: sys.argv is still rebound by main (harmless now); builtins.profile stays;
+   auto-profiling's registrations leave the LineProfiler enabled (fx_autoprof, a defect). *)
+Definition current : Fixes := mkFixes false true true true true false false.
 (* the tree before the repairs *)
-Definition unrepaired : Fixes := mkFixes false false false false false false.
+Definition unrepaired : Fixes := mkFixes false false false false false false false.
 
 (* ---- the state --------------------------------------------------------------------- *)
 Definition heap := Z -> list string.
@@ -147,6 +150,10 @@ Record Prog := mkProg {
   p_touch_argv : bool;     (* the program does sys.argv.append("prog-added") *)
   p_uses_builtin : bool;   (* the program decorates with the builtin `profile` whenever one exists
                               (`try: profile / except NameError: profile = lambda f: f`) *)
+  p_regs : Z;              (* -l -p sel: how many of the program's import statements the selection
+                              matches (with --prof-imports and the script selected: all of them).
+                              Auto-profiling puts `profile.add_imported_function_or_module(x)` after
+                              each; for a function / class / module it ends in enable_by_count() *)
   p_sched : list tevent    (* -i N: what the periodic-dump timer does while the program runs
                               (expiries and dump completions, in any interleaving) *)
 }.
@@ -172,9 +179,26 @@ Definition result_of (o : outcome) : result := match o with Exc => Raised | _ =>
    set builtins.profile, so a program that uses the builtin when there is one picks up whatever
    an EARLIER in-process run left there; its decorated function then tries to enable that stale
    profiler inside the running cProfile, which CPython 3.12 refuses with ValueError. *)
-Definition effective_outcome (o : Opts) (p : Prog) (found_builtin : option prof) : outcome :=
-  if p_uses_builtin p && negb (o_line o || o_builtin o)
-     && match found_builtin with Some _ => true | None => false end
+Definition is_some {A} (x : option A) : bool := match x with Some _ => true | None => false end.
+
+(* does the run execute registration statements? (kernprof.py 508-521: only with -l and -p) *)
+Definition registers (o : Opts) (p : Prog) : bool := o_line o && (0 <? p_regs p).
+
+(* A profiler that is ALREADY enabled when main is called (left by an earlier run, or the
+   caller's) makes every attempt to enable another one raise ValueError on CPython 3.12
+   (sys.monitoring PROFILER_ID is taken).  Plain cProfile mode: runctx fails before the program
+   starts.  -l / -b: the program runs up to its first enable - a registration statement right
+   after its imports if there is one, else the first call of a decorated function. *)
+Definition body_runs (o : Opts) (p : Prog) (found_tracing : option prof) : bool :=
+  negb (is_some found_tracing) || ((o_line o || o_builtin o) && negb (registers o p)).
+
+(* How the program really ends.  Besides the above: in plain cProfile mode kernprof does not set
+   builtins.profile, so a program that uses the builtin when there is one picks up whatever an
+   EARLIER in-process run left there; enabling that stale profiler inside the running cProfile is
+   refused with ValueError as well. *)
+Definition effective_outcome (o : Opts) (p : Prog) (found_builtin found_tracing : option prof) : outcome :=
+  if is_some found_tracing then Exc
+  else if p_uses_builtin p && negb (o_line o || o_builtin o) && is_some found_builtin
   then Exc else p_outcome p.
 
 Definition assign_argv (cfg : Fixes) (v : list string) (c : cell) : cell :=
@@ -206,10 +230,13 @@ Definition main_body (cfg : Fixes) (o : Opts) (p : Prog) (s : St) : result * St 
   (* 502-532: try: the program runs; its profiled parts run with the profiler enabled and
      every one of them switches it off again on the way out (wrappers / runctx use finally) *)
   let found_tracing := tracing s in
-  let s := set_tracing (Some pr) s in
-  let s := upd_path (fun c => if p_touch_path p then append_cur "/prog-added" c else c) s in
-  let s := upd_argv (fun c => if p_touch_argv p then append_cur "prog-added" c else c) s in
-  let s := set_tracing found_tracing s in
+  let s := set_tracing (if is_some found_tracing then found_tracing else Some pr) s in
+  let s := upd_path (fun c => if p_touch_path p && body_runs o p found_tracing then append_cur "/prog-added" c else c) s in
+  let s := upd_argv (fun c => if p_touch_argv p && body_runs o p found_tracing then append_cur "prog-added" c else c) s in
+  (* ... except the registrations of auto-profiling: enable_by_count() once per registered import,
+     never disabled (line_profiler/autoprofile/line_profiler_utils.py:25) *)
+  let s := set_tracing (if registers o p && negb (fx_autoprof cfg) && negb (is_some found_tracing)
+                        then Some pr else found_tracing) s in
   (* 531-532: except (KeyboardInterrupt, SystemExit): pass     533: finally: *)
   (* 534-535: rt.stop(); what is left of that timer once its dumps in progress have returned *)
   let s := set_timers (timers s - (if timed then 1 else 0)
@@ -219,7 +246,7 @@ Definition main_body (cfg : Fixes) (o : Opts) (p : Prog) (s : St) : result * St 
                    then set_enabled (f_enabled found) (set_profile (f_profile found) (gp s))
                    else overwrite (gp s) None) s in
   let s := set_builtin (if fx_builtin cfg then found_builtin else builtin s) s in
-  (result_of (effective_outcome o p found_builtin), s).
+  (result_of (effective_outcome o p found_builtin found_tracing), s).
 
 (* ---- the restoring decorator(s) around main, as contextlib runs them ------------------------------------- *)
 Definition restore_cell (cfg : Fixes) (lst : Z) (old : list string) (c : cell) : cell :=
@@ -318,5 +345,5 @@ Definition mk_state (argv0 : list string) (argv_rebound : bool) (path0 : list st
 
 Definition st0 : St := mk_state ["driver"] false ["/lib"] false gp_init 0.
 Definition opts0 : Opts := mkOpts true false false None 0 ["prog.py"; "a"] "" "/T".
-Definition returns : Prog := mkProg Return false false true [].
-Definition raises : Prog := mkProg Exc false false true [Fire].
+Definition returns : Prog := mkProg Return false false true 0 [].
+Definition raises : Prog := mkProg Exc false false true 0 [Fire].
